@@ -165,7 +165,13 @@ def _as_small_rational(x, maxden=96):
         p = round(x * q)
         if p != 0 or x == 0.0:
             cand = p / q
-            if abs(cand - x) <= 4 * math.ulp(x if x != 0 else 1.0):
+            err = abs(cand - x)
+            if err <= 4 * math.ulp(cand if cand != 0 else 1.0):
+                return Fraction(p, q)
+            if err <= 64 * math.ulp(cand if cand != 0 else 1.0):
+                # a few more ulps off (output of a LAPACK factorisation of a constant gate): still
+                # identified, but counted as an inexact lift (claims are "to floating point")
+                STATS["inexact_float_lifts"] += 1
                 return Fraction(p, q)
     return None
 
@@ -467,9 +473,19 @@ class Poly:
                     b = b * b
             return r
         # rational power
+        if len(self.t) == 1:
+            (m, c), = self.t.items()
+            if c == 1 and m and all(s_ in TAB.invertible for s_, _ in m):
+                # generator of an exponential: g**(p/q) is the exponential of (p/q) * argument
+                k, mm = _mpow(m, n)
+                return Poly({mm: k})
         r = self._exact_root(n.denominator)
         if r is not None:
             return r ** n.numerator
+        cv = self.constval()
+        if cv is not None and not isinstance(cv, complex) and cv > 0 and n != Fraction(1, 2) and n != Fraction(-1, 2):
+            STATS["inexact_float_lifts"] += 1
+            return Poly.const(Fraction(float(cv) ** float(n)))
         if n == Fraction(1, 2):
             return _defined_sqrt(self)
         if n == Fraction(-1, 2):
@@ -482,6 +498,12 @@ class Poly:
             f = Fraction(cv)
             if f.denominator == 1:
                 return lift(base) ** int(f)
+            if f.denominator <= 64 and isinstance(base, (int, Fraction)):
+                return lift(base) ** f
+            # a constant to a non-integral constant power: a float constant (inexact)
+            if isinstance(base, (int, float, Fraction, np.integer, np.floating)) and float(base) > 0:
+                STATS["inexact_float_lifts"] += 1
+                return Poly.const(Fraction(float(base) ** float(f)))
             return lift(base) ** f
         if base == 10 or base == 10.0:
             return exp10(self)
@@ -495,7 +517,7 @@ class Poly:
             return None
         (m, c), = self.t.items()
         c = Fraction(c)
-        if c <= 0:
+        if c <= 0 or k > 64:
             return None
 
         def iroot(x):
